@@ -189,6 +189,10 @@ def gossip_family(w, pid, corrupt, corrupt_what, extra_kinds=(), mc=None, assump
              [("ordf%d" % i, dict(traces=6, n=0, steps=150, arg="thorough")) for i in range(3)]
     t3, s3 = drive_all(w, gossip_specs(w, okinds), mode="orders")
     traces, sums = traces + t3, sums + s3
+    if pid in ("C01", "C02"):
+        # fast-sync: fresh nodes and nodes with history (resets behind their own tip)
+        t7, s7 = drive_all(w, gossip_specs(w, [("ffx", dict(traces=4 if q else 10, n=0, steps=240 if q else 400))]), mode="ff")
+        traces, sums = traces + t7, sums + s7
     tvs = w.validate_many(traces, par=6 if q else 8)
     violations, known_hits, drift = judge(w, pid, tvs, known)
     escalated = None
@@ -450,6 +454,76 @@ def plan_C09(w):
                                  "malformed signature encodings are exercised by the C08 check (they abort ProcessSigPool)"])
 
 
+def ff_corrupt_adopt(d):
+    # a refused tampered response reported as adopted
+    if d.get("a") == "FFOffer" and not d["x"]["valid"] and not d["o"]["adopted"]:
+        d["o"]["adopted"] = True
+        d["x"]["frame"] = {"round": 0, "peers": [], "roots": [], "evs": [], "psets": [{"r": 0, "peers": [1]}], "info": []}
+        d["x"]["block"] = {"idx": 0, "rr": 0, "txs": [], "itxs": [], "rcpt": [], "signers": [], "dig": "x"}
+        for k in ("known", "ps", "lcr", "loaded", "lastBlock", "lastRound", "topo", "target", "head", "seq", "anchor", "txpool"):
+            d["o"].setdefault(k, [] if k in ("known", "ps", "txpool") else (-1 if k != "head" else ""))
+        return True
+    return False
+
+
+def ff_corrupt_c13(d):
+    # a fast-forwarded node reports another body for a block the others delivered too
+    if d.get("a") == "FFOffer" and d["o"]["adopted"]:
+        ff_corrupt_c13.node = d["n"]
+        return False
+    if getattr(ff_corrupt_c13, "node", None) and d.get("a") == "Sync" and d["n"] == ff_corrupt_c13.node and d["o"].get("blocks"):
+        d["o"]["blocks"][0]["dig"] = "feedfacefeedface"
+        ff_corrupt_c13.node = None
+        return True
+    return False
+
+
+def ff_kinds(w, q):
+    if q:
+        return [("ffA", dict(traces=4, n=0, steps=240, arg="all")), ("ffB", dict(traces=4, n=5, steps=260))]
+    return [("ff%d" % i, dict(traces=6, n=0, steps=400, arg="all" if i % 2 == 0 else "")) for i in range(5)] + \
+           [("ffBd", dict(traces=3, n=4, steps=300, store="badger", cache=400))]
+
+
+def ff_family(w, pid, corrupt, what):
+    q = Q(w)
+    known = vlib.load_known()
+    run_mc(w, [("hg1", "MC_hg1.cfg", 4, 300)])
+    traces, sums = drive_all(w, gossip_specs(w, ff_kinds(w, q)), mode="ff")
+    tvs = w.validate_many(traces, par=6)
+    violations, known_hits, drift = judge(w, pid, tvs, known)
+    if pid == "C13":
+        # continuity is the agreement of the fast-forwarded node with the others
+        v2, k2, _ = judge(w, "C01", tvs, known)
+        for v in v2:
+            v["what"] = "C13 via " + v["what"]
+        violations += v2
+    st = None
+    if not violations:
+        if hasattr(corrupt, "node"):
+            corrupt.node = None
+        st = selftest(w, "C01" if pid == "C13" else pid, first_segment(traces[0], os.path.join(w.dir, "seg.ndjson")), corrupt, what)
+    tot = {k: sum(s.get("extra", {}).get(k, 0) for s in sums) for k in ("offers", "valid_adopted", "refused", "forged_adopted", "tamperings")}
+    if tot["valid_adopted"] < 2:
+        raise Infra("vacuous run: valid fast-forward responses were not adopted (%s)" % tot)
+    extra = {"selftest": st, "fast_forward_offers": tot,
+             "tamperings": "each body field (index, round-received, timestamp, state hash, frame hash, peers hash, transactions added/removed/altered, receipt), frame round/timestamp, frame event removed/duplicated/reordered/payload/round/witness/Lamport changed, root event changed, root removed, peer added/removed/reordered, peer-set table entry changed, signatures all removed / cut to one below the threshold / over another body / by non-members only / one signer under 2-4 spellings of its key; forged triples signed by 1 and 3 strangers; offered to a fresh node and to a node with history sent back to CatchingUp"}
+    return conclude(w, pid, sums, violations, known_hits, drift, extra=extra,
+                    assumptions=["frame hash = the repository's canonical frame encoding hashed with SHA-256 (the definition); peers hash, signature validity, distinct-signer count and trust are recomputed by the driver"])
+
+
+def plan_C12(w):
+    return ff_family(w, "C12", ff_corrupt_adopt, "a refused tampered response reported as adopted")
+
+
+def plan_C13(w):
+    return ff_family(w, "C13", ff_corrupt_c13, "a fast-forwarded node's first delivered block reports another body digest")
+
+
+def plan_C14(w):
+    return ff_family(w, "C14", ff_corrupt_adopt, "a refused response without trusted signer reported as adopted")
+
+
 def c18_corrupt(d):
     if d.get("a") == "Sync":
         for b in d["o"].get("blocks", []):
@@ -515,6 +589,9 @@ def plan_C19(w):
 
 
 PLANS = {
+    "C12": plan_C12,
+    "C13": plan_C13,
+    "C14": plan_C14,
     "C09": plan_C09,
     "C06": plan_C06,
     "C07": plan_C07,
